@@ -192,7 +192,7 @@ def _parse_capture(stdout, n):
             cur.dump.append(ln)
         elif t[0] in ('HIR', 'SRC'):
             cur.dump.append(ln)
-        elif t[0] in ('RAWDEF', 'RSTATE', 'REDGE', 'RMATCH'):
+        elif t[0] in ('RAWDEF', 'RSTATE', 'REDGE', 'RMATCH', 'DFADEF', 'DROW'):
             # the graph before the passes of Graph::new; kept apart so that every other consumer sees the dump as before
             cur.raw.append(ln)
         elif t[0] == 'STATE':
